@@ -46,7 +46,16 @@ def make_case(idx, tier):
             m = gen.vi_motion(R, 'aoxb .,(é')
             if m.startswith(("'", '`')):
                 m = R.choice(SINGLE)
+            if R.random() < 0.12:
+                # a yank in between (text unchanged): its counts - before the operator, after it, both - are its own and over when it is done
+                m = R.choice(['', '2', '3']) + 'y' + R.choice(['2', '3', '2', '']) + R.choice(['w', 'l', 'j', 'e', 'fa', 'h', 'b', '$', 'k'])
             keys += m
+    if R.random() < 0.05:
+        # four-byte characters that differ in their last byte only, as targets of f F t T ; ,
+        sib = ['😀', '😁', '😂', '𠀀', '𠀁', 'a', ' ', 'b😀', 'x']
+        lines = [''.join(R.choice(sib) for _ in range(R.randint(3, 14))) for _ in range(R.randint(1, 4))]
+        keys = '%dG' % R.randint(1, len(lines)) + R.choice(['0', '$', '3|']) + ''.join(R.choice(['', '2', '3']) + R.choice(['f', 'F', 't', 'T']) + R.choice(['😀', '😁', '𠀁', '𠀀', 'a']) + R.choice(['', ';', ',', ';;', ',;'])
+                                                                                     for _ in range(R.randint(1, 4)))
     x = R.random()
     if x < 0.06 and lines:
         # CR LF files, form feeds: they are blanks for words and for the first non-blank, whatever they look like on screen
